@@ -73,20 +73,40 @@ def expected_defs(toks, clauses):
 _DEF = re.compile(r"^def (.*)\(([^()]*)\):$", re.M)
 
 
+class _DebugOptions:
+    """every debugging option of CompilerContext switched on (what `yldpc --debug` does)"""
+    debug_filename = "input.prolog"
+    debug_parser = True
+    debug_generator = True
+    current_source_file = "input.prolog"
+    outf = None
+
+
 def _compile_one(item):
-    toks, inl, clauses = item
+    toks, inl, clauses = item[:3]
     import io, contextlib, sys
     from .. import real
-    text = render(toks)
-    try:
-        with contextlib.redirect_stderr(io.StringIO()), contextlib.redirect_stdout(io.StringIO()):
-            out = real.compiler.compile_prolog_from_string(text)
-    except Exception as e:
-        return ("raised", type(e).__name__)
-    except RecursionError:
-        return ("raised", "RecursionError")
-    defs = set(m.group(1) for m in _DEF.finditer(out))
-    return ("returned", sorted(defs))
+    text = item[3] if len(item) > 3 and item[3] is not None else render(toks)
+
+    def comp(options):
+        try:
+            with contextlib.redirect_stderr(io.StringIO()), contextlib.redirect_stdout(io.StringIO()):
+                if options is None:
+                    out = real.compiler.compile_prolog_from_string(text)
+                else:
+                    options.outf = io.StringIO()
+                    out = real.compiler.compile_prolog_from_string(text, options)
+        except Exception as e:
+            return ("raised", type(e).__name__)
+        except RecursionError:
+            return ("raised", "RecursionError")
+        return ("returned", sorted(set(m.group(1) for m in _DEF.finditer(out))))
+    plain = comp(None)
+    # the same text with the debugging options on: what is accepted and what it defines must not depend on them
+    dbg = comp(_DebugOptions())
+    if dbg != plain and not (dbg[0] == "raised" and plain[0] == "raised"):
+        return ("options-differ", {"default": plain, "debug": dbg})
+    return plain
 
 
 def _compile_chunk(chunk):
@@ -95,18 +115,26 @@ def _compile_chunk(chunk):
 
 def check_strings(chk, family, strings):
     """strings: list of (toks, inl, clauses, tag)"""
-    items = [(s[0], s[1], s[2]) for s in strings]
+    items = [(s[0], s[1], s[2], s[4] if len(s) > 4 else None) for s in strings]
     from .. import replay as _rp
     chunks = [items[i:i + 200] for i in range(0, len(items), 200)]
     outs = [x for o in _rp.pool_map(_compile_chunk, chunks) for x in o]
     n_in = 0
-    for (toks, inl, clauses, tag), (what, info) in zip(strings, outs):
+    for st, (what, info) in zip(strings, outs):
+        toks, inl, clauses, tag = st[:4]
+        text = st[4] if len(st) > 4 and st[4] is not None else render(toks)
         chk.evaluations += 1
         chk.replayed += 1
         if inl:
             n_in += 1
         v = None
-        if not inl and what == "returned":
+        if what == "options-differ":
+            if not inl and "returned" in (info["default"][0], info["debug"][0]):
+                v = {"kind": "accepted-outside-grammar", "detail": "text that is not a sentence of the grammar is compiled when the debugging options are %s (%s)" %
+                     ("on" if info["debug"][0] == "returned" else "off", tag), "observed": info}
+            else:
+                v = {"kind": "options-differ", "detail": "the debugging options change what the compiler accepts or defines", "observed": info}
+        elif not inl and what == "returned":
             v = {"kind": "accepted-outside-grammar", "detail": "compiled text that is not a sentence of the grammar (%s)" % tag}
         elif inl and what == "returned":
             exp = expected_defs(toks, clauses)
@@ -118,7 +146,7 @@ def check_strings(chk, family, strings):
         if not inl and what == "raised":
             chk.nontrivial.add(tuple(toks))
         if v:
-            v.update(family=family, scenario={"tokens": toks, "text": render(toks), "in_language": inl, "clauses": clauses},
+            v.update(family=family, scenario={"tokens": toks, "text": text, "in_language": inl, "clauses": clauses},
                      features={"op": "compile", "tag": str(tag).split(":")[0], "first_bad": next((k for k in toks if k in ("BAD", "OPENQ")), ""),
                                "family": family})
             chk.violation(v)
@@ -274,6 +302,45 @@ def run(tier, seed):
     if len(kinds) < 7:
         chk.machinery_errors.append("vacuity: corruption kinds seen: %s" % sorted(kinds))
     check_strings(chk, "single-edit-corruptions", cor)
+    # bracket pairs from other languages around a stretch of a sentence (comment brackets, braces, string
+    # quotes): two insertions, each containing a character outside the lexicon
+    PAIRS = [("/*", ["SLASH", "BAD"], "*/", ["BAD", "SLASH"]), ("(*", ["LP", "BAD"], "*)", ["BAD", "RP"]), ("{", ["BAD"], "}", ["BAD"]),
+             ("#|", ["BAD", "BAR"], "|#", ["BAR", "BAD"]), ('"', ["BAD"], '"', ["BAD"]), ("{-", ["BAD", "UNOP"], "-}", ["UNOP", "BAD"]),
+             ("/**", ["SLASH", "BAD", "BAD"], "**/", ["BAD", "BAD", "SLASH"])]
+    br = []
+    atom_cases = []
+    for toks, _inl, _cl, _tag in ([(b[0], True, b[2], "derived") for b in base[:60 if tier == "quick" else 600]] + [(l, True, [], "long") for l in longer]):
+        lex = [lexeme(k, i + 1) for i, k in enumerate(toks)]
+        for (o, ot, c, ct) in PAIRS:
+            for _ in range(2):
+                i = rnd.randint(0, len(toks))
+                j = rnd.randint(i, len(toks))
+                nt = toks[:i] + ot + toks[i:j] + ct + toks[j:]
+                text = " ".join(lex[:i] + [o] + lex[i:j] + [c] + lex[j:])
+                br.append((nt, text, "pair:" + o))
+                # the same with the bracketed stretch at the very end / across a clause boundary in a quoted atom
+        # the brackets inside quoted atoms of two clauses around the sentence: all of it is Prolog text
+        atom_cases.append((toks, " ".join(lex), "zzp('/*'). " + " ".join(lex) + " zzr('*/')."))
+    fn = os.path.join(tlc.WORK, "C10-pairs-%d.json" % pid)
+    with open(fn, "w") as f:
+        json.dump([b[0] for b in br], f)
+    cfg = write_cfg("Syntax-pairs-%d.cfg" % pid, "JsonInit", "Stutter", 99, 0, 1, ["EmitIn"])
+    try:
+        res = tlc.run("Syntax", os.path.basename(cfg), env={"STRS_FILE": fn}, tag="syn-pairs-%d" % pid)
+    finally:
+        os.unlink(cfg)
+        os.unlink(fn)
+    chk.add_tlc(res, ["InLanguage (sentences with foreign bracket pairs inserted)"])
+    inlp = {tuple(r["toks"]): r["clauses"] for r in res.records}
+    check_strings(chk, "foreign-bracket-pairs", [(nt, tuple(nt) in inlp, inlp.get(tuple(nt), []), tag, text) for nt, text, tag in br])
+    for toks, mid, whole in atom_cases:
+        a = _compile_one((toks, True, [], mid))
+        b = _compile_one((toks, True, [], whole))
+        chk.evaluations += 1
+        if a[0] == "returned" and (b[0] != "returned" or set(b[1]) != set(a[1]) | {"zzp_1", "zzr_1"}):
+            chk.violation({"kind": "defs-differ", "detail": "a sentence between two clauses whose quoted atoms hold comment brackets is compiled differently from the sentence alone",
+                           "family": "foreign-bracket-pairs", "expected": sorted(set(a[1]) | {"zzp_1", "zzr_1"}), "observed": b,
+                           "scenario": {"tokens": toks, "text": whole}, "features": {"op": "compile", "family": "foreign-bracket-pairs", "tag": "pair-in-atoms"}})
     # the file entry point: the same path compiled twice, the second time holding a corruption of equal length
     check_file_route(chk, [(b[0], True, b[2], "derived") for b in base] + [(l, True, [], "long") for l in longer], cor)
     chk.exhaustive = True
